@@ -16,7 +16,7 @@ import z3
 
 from .values import *
 from .chars import TChars, TDigits, VChars
-from .ops import lift, unlift, FloatInexact, mk_bool, conj_terms
+from .ops import lift, unlift, FloatInexact, mk_bool, conj_terms, as_int_term
 from .engine import Interp, Obligation
 from .sources import SOURCES
 from . import smt, speclib
@@ -228,13 +228,38 @@ def _install_spec_models(interp):
             yield st, (VBool(r) if isinstance(r, bool) else mk_bool(r))
             return
         if s.concrete:
-            yield st, VBool(p.fullmatch(s.v) is not None)
+            yield st, VBool(speclib.matches(s.v, unlift(pat)))
             return
         P = regex.parsed(p)
         if P.anch_start or P.end_kind:
             raise Unsupported("speclib.matches pattern must not be anchored (fullmatch semantics)")
         yield st, mk_bool(z3.InRe(s.term(), P.body_re()))
 
+    def m_char_at(interp, st, args, kwargs):
+        s, j = args
+        if s.concrete and isinstance(j, VInt) and j.concrete:
+            yield st, type(s)(speclib.char_at(s.v, j.v))
+            return
+        if not isinstance(s, (VStr, VBytes)):
+            raise Unsupported("speclib.char_at of a structured string")
+        yield st, type(s)(z3.SubString(s.term(), as_int_term(j), 1))
+
+    def m_take_drop(which):
+        def m(interp, st, args, kwargs):
+            s, j = args
+            if s.concrete and isinstance(j, VInt) and j.concrete:
+                yield st, type(s)(getattr(speclib, which)(s.v, j.v))
+                return
+            if not isinstance(s, (VStr, VBytes)):
+                raise Unsupported(f"speclib.{which} of a structured string")
+            t, jt = s.term(), as_int_term(j)
+            jt = z3.If(jt >= 0, jt, z3.Length(t)) if which == 'drop' else jt
+            yield st, type(s)(z3.SubString(t, 0, jt) if which == 'take' else z3.SubString(t, jt, z3.Length(t) - jt))
+        return m
+
+    interp.models[speclib.take] = m_take_drop('take')
+    interp.models[speclib.drop] = m_take_drop('drop')
+    interp.models[speclib.char_at] = m_char_at
     interp.models[speclib.matches] = m_matches
     interp.models[speclib.forall] = m_forall
     interp.models[speclib.exists] = lambda interp, st, args, kwargs: m_forall(interp, st, args, kwargs, True)
